@@ -218,8 +218,9 @@ var hdrExprs = []string{"", "^v1$", "Caddy", "[0-9]+", "^(a|b)$"}
 var hdrVals = []string{"v1", "v12", "Caddy/2", "x", "7", "a", "", "ab"}
 
 func genHeaders(t *rapid.T) []string {
-	n := rapid.IntRange(1, 2).Draw(t, "nh")
-	var out []string
+	// 0 pairs is a legal call too: it replaces the previous set by the empty one
+	n := rapid.IntRange(0, 2).Draw(t, "nh")
+	out := []string{}
 	seen := map[string]bool{}
 	for i := 0; i < n; i++ {
 		name := hdrNames[rapid.IntRange(0, len(hdrNames)-1).Draw(t, "hn")]
